@@ -51,6 +51,10 @@ CHECKS = {
          "Messages in every completeness state are put through all 39 sequences of up to three producers with accepted and rejected arguments; after each call every observable field is compared with a model that changes only the named field, the receiver is re-read, and refusal must coincide with the validity rules.",
          "Trusts the producer model written from the property statement.",
          "DESIGN.md §5 C18"),
+ "C11": ("exploration", "snapshot monitor over random API histories with scribbling of every argument and returned slice/map",
+         "Random 200-step histories over a pool of up to 64 shared items, data messages and control messages; after every step the harness overwrites every slice/map it passed in or got back and re-reads every pooled object through all public observers; any difference from the snapshot taken at creation is a violation.",
+         "State = what the public observers return; histories are random, not exhaustive.",
+         "DESIGN.md §5 C11"),
 }
 
 NOT_YET = {}
